@@ -12,7 +12,7 @@ RULE = (
     "cases = (context, form, t, preset): t single-line with t == t.strip() (title contexts: blanks at the ends allowed) over printable "
     "ASCII (punctuation-heavy), inner blanks/tabs, non-ASCII letters/punctuation/blanks/format characters and (backslash form) "
     "controls and NUL; form bs = backslash before every ASCII punctuation character, form ref = every punctuation character (and "
-    "randomly others) as decimal/hex/named character reference; 13 contexts (paragraph, ATX heading, em, strong, link text, image "
+    "randomly others) as decimal/hex/named character reference; 16 contexts (paragraph, ATX heading, em and strong padded by letters, em/strong with the delimiters touching t, link text, image "
     "alt, link title in \"\", '', (), reference-definition title, table cell, list item, block quote); commonmark and js-default with "
     "table+strikethrough, typographer off. Oracle: render(ctx(esc(t))) == frame(escapeHtml(t)) byte for byte. Non-trivial = t "
     "with >=1 ASCII punctuation character; distinct by (context, form, t, preset)."
